@@ -1221,7 +1221,9 @@ def r2b_no_trap_verdicts_rest_on_stable_types(ctx):
                 else:
                     problems.append("reads a variable's recorded type without asking whether the variable is assigned again")
             if any(c.callee == LOOKF for c in i_tables):
-                userfn = any((c.callee or "").endswith("Option::is_none") and "from_name" in sh(ne(pf.deep(c.args[0]))) for c in p_calls) or "true" in vals and any((c.callee or "").endswith("from_name") for c in p_calls)
+                # `is not a built-in` must itself be the answer on that path (one of the returned alternatives), not one
+                # conjunct of it: `from_name(f).is_none() && args.any(may_change)` trusts the recorded return type of f()
+                userfn = ("call:is_none" in vals and any((c.callee or "").endswith("Option::is_none") and "from_name" in sh(ne(pf.deep(c.args[0]))) for c in p_calls)) or (vals == ["true"])
                 if not userfn:
                     problems.append("trusts the recorded return type of a user function (typed when the function was declared)")
             if problems:
@@ -1470,14 +1472,76 @@ def r5c_if_branches_flow_into_the_join_from_their_ends(ctx):
             continue
         n += 1
         src = sh(ne(fn.deep(c.args[1], 10))).replace(" ", "")
-        if "lower_block(" in src:
+        # an or-pattern binds the block in two arms (`(Some(tail), None) | (None, Some(tail))`): every reaching definition counts
+        alts = [sh(ne(a)).replace(" ", "") for a in fn.alt_exprs(c.args[1], 6)]
+        if len(alts) > 1:
+            n += len(alts) - 1
+        if "lower_block(" in src or (alts and all("lower_block(" in a for a in alts)):
             ctx.ok("if-join|from-branch-end#%d" % n, fn.where(c.block), "goto join placed on the block the branch's lowering ended in")
         else:
             ctx.bad("if-join|from-branch-entry|%s" % src[:24], fn.where(c.block), "the goto into the join block after an `if` is placed on `%s`, which is not where lowering the branch ended: for a branch that contains an `if` or a loop the join becomes unreachable from it and the statements after the `if` are pruned as dead" % src[:50])
     ctx.floor("gotos into the join block of an if", n, 4)
 
 
-RULES = [("C03-R1", r1_plan_only_from_pure), ("C03-R1b", r1b_capture_write_is_an_effect), ("C03-R2", r2_effect_tables), ("C03-R2b", r2b_no_trap_verdicts_rest_on_stable_types), ("C03-R3", r3_plan_consulted), ("C03-R3b", r3b_plan_queries_read_their_own_table), ("C03-R4", r4_dataflow_shape), ("C03-R4b", r4b_reads_and_writes_reach_the_summaries), ("C03-R4c", r4c_summaries_are_a_transitive_closure), ("C03-R4d", r4d_bitset_arithmetic_agrees), ("C03-R4e", r4e_fixpoint_flags_are_sticky), ("C03-R4f", r4f_a_set_is_deduplicated_against_itself), ("C03-R4g", r4g_reads_and_writes_are_each_walked), ("C03-R5", r5_loop_cfg_shape), ("C03-R5b", r5b_scope_kills_sit_where_the_scope_ends), ("C03-R5c", r5c_if_branches_flow_into_the_join_from_their_ends)]
+def r5d_a_jump_kills_exactly_the_scopes_it_leaves(ctx):
+    """`comot` / `next` leave the scopes from the innermost one out to the loop body's scope, inclusive, and no further: the
+    walk over the scope stack stops when the scope just killed *is* the boundary it was given.  Stopping one scope later kills
+    the variables of the block that holds the loop, so a store to one of them right before the jump is pruned."""
+    fn = ctx.lib.fns.get("analysis::cfg::FunctionBuilder::kill_scopes_through")
+    if fn is None:
+        ctx.bad("jump-kills|anchor", "", "kill_scopes_through not found")
+        return
+    ctx.touch(fn)
+    kills = [c for c in fn.calls() if (c.callee or "").endswith("::add_scope_kills")]
+    stops = []
+    for S in sorted(fn.live):
+        t = fn.blocks[S]["t"]
+        if t["k"] != "switch":
+            continue
+        d = sh(ne(fn.deep(t["d"], 10))).replace(" ", "")
+        if "boundary" in d:
+            stops.append((S, d))
+    good = [d for S, d in stops if re.fullmatch(r"(eq|Eq)\((next\(.*\)@Some\.0|scope),boundary\)|(eq|Eq)\(boundary,(next\(.*\)@Some\.0|scope)\)", d) or re.fullmatch(r"eq\(.*scope.*,.*boundary.*\)", d) and "parent" not in d and "scopes[" not in d]
+    if kills and stops and len(good) == len(stops):
+        ctx.ok("jump-kills|stops-at-the-boundary", fn.where(stops[0][0]), "the walk ends when the scope just killed equals the boundary")
+    else:
+        ctx.bad("jump-kills|stop-test|%s" % (stops[0][1][:30] if stops else "none"), fn.where(), "kill_scopes_through ends its walk on `%s`, not on `scope == boundary`: the scopes killed at a `comot` / `next` are not exactly the ones the jump leaves" % (stops[0][1][:70] if stops else "no test of the boundary"))
+
+
+def r6_reachability_follows_every_call(ctx):
+    """A function body is scanned for calls as soon as the function is found reachable, wherever its definition stands in the
+    text: the worklist of compute_function_reachability gets every callee whose body becomes reachable, unconditionally.  A
+    push that also asks whether the definition has been seen makes the result depend on text order - a function called only
+    from a hoisted function is reported `never called`, pruned, and the runtime panics at the call."""
+    fn = ctx.lib.fns.get("analysis::diagnostics::compute_function_reachability")
+    if fn is None:
+        ctx.bad("reachability|anchor", "", "compute_function_reachability not found")
+        return
+    ctx.touch(fn)
+    n = 0
+    for c in fn.calls():
+        if not (c.callee or "").endswith("::push"):
+            continue
+        # the worklist: the vector that the routine's outer loop pops
+        popped = {sh(ne(fn.deep(p_.args[0], 6))).replace("&mut ", "") for p_ in fn.calls() if (p_.callee or "").endswith("Vec::pop")}
+        if sh(ne(fn.deep(c.args[0], 6))).replace("&mut ", "") not in popped:
+            continue
+        item = sh(ne(fn.deep(c.args[1], 12)))
+        if "next(" not in item:
+            continue        # the root function, pushed once before the loop
+        n += 1
+        conds = [sh(ne(fn.expr(fn.blocks[S]["t"]["d"], 5))).replace(" ", "") for S, al in fn.constraints(c.block)]
+        # the tests a push may sit under: the loops' own drivers, `reachable[stmt]`, and `the callee's body was not reachable
+        # yet` (the flag that is set right before the push); a test of the *definition* table is the text-order dependence
+        extra = [d for d in conds if "definition_reachable" in d or ("definition" in d and "body" not in d)]
+        if extra:
+            ctx.bad("reachability|worklist|conditional-on-definition", fn.where(c.block), "a callee whose body has just become reachable is put on the worklist only if `%s`: whether its own calls are followed depends on where its definition stands in the text" % extra[0][:60])
+        else:
+            ctx.ok("reachability|worklist#%d" % n, fn.where(c.block), "every newly reachable callee is scanned")
+    ctx.floor("worklist pushes of newly reachable callees", n, 1)
+
+
+RULES = [("C03-R1", r1_plan_only_from_pure), ("C03-R1b", r1b_capture_write_is_an_effect), ("C03-R2", r2_effect_tables), ("C03-R2b", r2b_no_trap_verdicts_rest_on_stable_types), ("C03-R3", r3_plan_consulted), ("C03-R3b", r3b_plan_queries_read_their_own_table), ("C03-R4", r4_dataflow_shape), ("C03-R4b", r4b_reads_and_writes_reach_the_summaries), ("C03-R4c", r4c_summaries_are_a_transitive_closure), ("C03-R4d", r4d_bitset_arithmetic_agrees), ("C03-R4e", r4e_fixpoint_flags_are_sticky), ("C03-R4f", r4f_a_set_is_deduplicated_against_itself), ("C03-R4g", r4g_reads_and_writes_are_each_walked), ("C03-R5", r5_loop_cfg_shape), ("C03-R5b", r5b_scope_kills_sit_where_the_scope_ends), ("C03-R5c", r5c_if_branches_flow_into_the_join_from_their_ends), ("C03-R5d", r5d_a_jump_kills_exactly_the_scopes_it_leaves), ("C03-R6", r6_reachability_follows_every_call)]
 
 EXPLANATION = (
     "R1: in build_optimization_plan every push into the removable sets is edge-dominated by the test that justifies it "
@@ -1509,4 +1573,7 @@ TRUSTED = ["rustc nightly MIR/HIR", "nsx exporter", "nsverif table extraction (c
 NONTRIVIAL = "one obligation per push site clause, per built-in variant, per join cell and per equation-order clause; distinct = distinct clause"
 EXPLANATION += (
     " Round 6: R2b is a chain of obligations since the D35 repair (gate in front of the recorded types, predicate checked kind by kind against infer_expr_type's arms; a variable's type or a user call's result is never trusted - or, in the collector form, looked up in a complete table). R4f: `if !v.contains(x) { v.push(x) }` tests and extends the same vector with the same item. R4g: a pass with one loop per read/write set does not walk one set twice and its sibling never. R5b: the kills of a lexical scope are attached to the block in which lowering the nested block *ended*. R5c: the gotos into the join block after an `if` are placed on the branches' end blocks. R4c's initial-set comparison was repaired (it compared a prefix both sides share)."
+)
+EXPLANATION += (
+    " Round 7: R5d the walk that kills scopes at a `comot` / `next` ends when the scope just killed equals its boundary; R6 every callee whose body becomes reachable is put on the reachability worklist unconditionally (no test of the definition table); R2b's user-call clause requires `is not a built-in` to be the answer itself, not a conjunct."
 )
